@@ -145,6 +145,11 @@ def publishedSk (lay : LNode) : Sk := pruneSk lay.sk
 
 /-! ### class predicates -/
 
+/-- nothing is published -/
+def isNil : Option (List LCell) → Bool
+  | some [] => true
+  | _ => false
+
 mutual
 /-- no cell is published for an `if` arm, here and in every callee (`ok f` = the same for the body of `f`): the class
 outside finding F3.  Lambda bodies are not inspected (their state lives in the closure's own storage). -/
@@ -163,8 +168,7 @@ def armsOkE (tbl : Table) (ok : String → Bool) : Expr → Bool
   | .assign _ a b => armsOkE tbl ok a && armsOkE tbl ok b
   | .ite c a b =>
     armsOkE tbl ok c && armsOkE tbl ok a && armsOkE tbl ok b &&
-    (match pubE tbl a with | some [] => true | _ => false) &&
-    (match pubE tbl b with | some [] => true | _ => false)
+    isNil (pubE tbl a) && isNil (pubE tbl b)
   | .tup es => armsOkL tbl ok es
   | .app f args => armsOkE tbl ok f && armsOkL tbl ok args
   | .mem a _ => armsOkE tbl ok a
